@@ -28,36 +28,37 @@ subprocess.run(f"git -C /repo worktree remove --force {wt} 2>/dev/null; git -C /
 env = dict(os.environ, PYTHONPATH=f"{wt}/src")
 env.pop("GETTSIM_VERIF", None)
 try:
-    def demo():
+  if True:
+      def demo():
         p = subprocess.run(["/venv/bin/python", os.path.join(out, "demo_break.py")], cwd=wt, env=env, capture_output=True, text=True, timeout=900)
         return p.returncode, (p.stdout + p.stderr)[-600:]
-    rc0, o0 = demo()
-    subprocess.run(f"git -C {wt} apply {patch}", shell=True, check=True)
-    rc1, o1 = demo()
-    meta["demo_exit_without_change"] = rc0
-    meta["demo_exit_with_change"] = rc1
-    meta["demo_output_with_change"] = o1
-    if "--skip-suite" not in checks:
+      rc0, o0 = demo()
+      subprocess.run(f"git -C {wt} apply {patch}", shell=True, check=True)
+      rc1, o1 = demo()
+      meta["demo_exit_without_change"] = rc0
+      meta["demo_exit_with_change"] = rc1
+      meta["demo_output_with_change"] = o1
+      if "--skip-suite" not in checks:
         p = subprocess.run(["python3", "/verif/tools/baseline_compare.py", wt], capture_output=True, text=True)
         meta["suite_with_change"] = p.stdout.strip().splitlines()[:3]
         meta["suite_ok"] = p.returncode == 0
-finally:
-    subprocess.run(f"git -C /repo worktree remove --force {wt}", shell=True)
-for c in checks:
-    if c.startswith("--"):
-        continue
-    cid, _, tier = c.partition(":")
-    tier = tier or "quick"
-    subprocess.run(f"git -C /repo apply {patch}", shell=True, check=True)
-    t0 = time.time()
-    try:
-        p = subprocess.run(["timeout", "3000", "./check", cid, "--tier", tier], cwd="/verif", capture_output=True, text=True)
+      for c in checks:
+        if c.startswith("--"):
+            continue
+        cid, _, tier = c.partition(":")
+        tier = tier or "quick"
+        t0 = time.time()
+        # the checks analyse the scratch tree (PYTHONPATH precedes the .pth entry of /repo/src); /repo stays untouched
+        cenv = dict(os.environ, PYTHONPATH=f"{wt}/src")
+        p = subprocess.run(["timeout", "3000", "./check", cid, "--tier", tier], cwd="/verif", capture_output=True, text=True, env=cenv)
         lines = [l for l in p.stdout.splitlines() if not l.startswith("KNOWN-FINDING")]
         meta["ran"].append({"check": cid, "tier": tier, "exit": p.returncode, "seconds": round(time.time() - t0),
                             "violations": [l[:300] for l in lines if l.startswith("VIOLATION") or l.startswith("  what")][:6],
                             "tail": [l[:300] for l in lines[-3:]]})
-    finally:
-        subprocess.run("git -C /repo checkout -- .", shell=True)
+except Exception as e:
+    meta["eval_error"] = repr(e)[:300]
+finally:
+    subprocess.run(f"git -C /repo worktree remove --force {wt}", shell=True)
 meta["detected_by"] = [f"{r['check']}:{r['tier']}" for r in meta["ran"] if r["exit"] == 1]
 json.dump(meta, open(os.path.join(out, "meta.json"), "w"), indent=1, ensure_ascii=False)
 print(json.dumps({k: v for k, v in meta.items() if k != "demo_output_with_change"}, indent=1, ensure_ascii=False)[:3000])
